@@ -1,10 +1,27 @@
 import ChessVerif.Props.C13
+import ChessVerif.Props.C13.Basic
+import ChessVerif.Proofs.Minimax.Exact
 open Chess.Props.C13
-#print axioms neg_neg
-#print axioms neg_antitone
-#print axioms neg_worst
-#print axioms isBetter_dual
-#print axioms neg_max
-#print axioms neg_min
-#print axioms updateCutoff_dual
-#print axioms cutoff_dual
+#print axioms search_mirror
+#print axioms pass_exact
+#print axioms searchPasses_exact
+#print axioms rootValue_mirror
+#print axioms mirror_WF
+#print axioms abs_mirror
+#print axioms eval_mirror
+#print axioms legals_mirror
+#print axioms Chess.Props.C13.neg_neg
+#print axioms Chess.Props.C13.neg_antitone
+#print axioms Chess.Props.C13.neg_worst
+#print axioms Chess.Props.C13.isBetter_dual
+#print axioms Chess.Props.C13.neg_max
+#print axioms Chess.Props.C13.neg_min
+#print axioms Chess.Props.C13.updateCutoff_dual
+#print axioms Chess.Props.C13.cutoff_dual
+#print axioms Chess.Proofs.Minimax.pass_exact
+#print axioms Chess.Proofs.Minimax.completed_exact
+#print axioms Chess.Proofs.Minimax.searchPasses_exact
+#print axioms Chess.Proofs.Minimax.passTail_passEnd
+#print axioms Chess.Proofs.Minimax.deepen_pass
+#print axioms Chess.Proofs.Minimax.deepen_reports
+#print axioms Chess.Proofs.Minimax.search_reports
